@@ -70,6 +70,13 @@ const (
 	// time without answering is spinning; CPU time, unlike wall time, does not
 	// grow because the machine is busy with other things
 	c28SpinCPUSeconds = 6.0
+	// a handler is BLOCKED (stuck, not late) when its request has had no answer
+	// for this long while the server process used (almost) no CPU in that window,
+	// the fake upstream is serving nothing (so refinery is not waiting on the
+	// network), /alive is answered at once (the process is scheduled and idle) and
+	// two goroutine dumps a second apart show the handler parked on a lock/channel
+	c28BlockedAfter  = 3 * time.Second
+	c28BlockedMaxCPU = 0.15 // CPU-seconds per 3 s window; the idle router (tickers, GC) measures 0.03-0.06
 )
 
 var (
@@ -416,12 +423,13 @@ func c28KeyFor(k string) string {
 	case "junk":
 		return "k\"ey with spaces and \\ and é"
 	}
-	return ""
+	return c28AuthKeys[k] // "" for none
 }
 
 type c28Outcome struct {
-	Kind   string // answered | closed | timeout | unsendable
+	Kind   string // answered | closed | timeout | unsendable | spin | blocked
 	Status string
+	Detail string
 }
 
 func c28EndpointLabel(r c28Req) string {
@@ -525,11 +533,18 @@ func c28DoGRPC(ctx context.Context, conn *grpc.ClientConn, r c28Req, body []byte
 // process. Outcome kind "spin": the server burnt c28SpinCPUSeconds on it without
 // answering (the request is then abandoned). "timeout": no answer within the
 // wall deadline without that much CPU burnt (inconclusive).
-func c28Watched(w *c28Worker, do func(ctx context.Context) c28Outcome) (c28Outcome, float64) {
+func c28Watched(w *c28Worker, aliveAddr string, do func(ctx context.Context) c28Outcome) (c28Outcome, float64) {
 	ctx, cancel := context.WithTimeout(context.Background(), c28RequestDeadline)
 	defer cancel()
 	pid := w.cmd.Process.Pid
 	cpu0 := c28CPUSeconds(pid)
+	t0 := time.Now()
+	type sample struct {
+		at  time.Time
+		cpu float64
+	}
+	samples := []sample{{t0, cpu0}}
+	nextBlockedCheck := t0.Add(c28BlockedAfter)
 	ch := make(chan c28Outcome, 1)
 	go func() { ch <- do(ctx) }()
 	tick := time.NewTicker(250 * time.Millisecond)
@@ -538,8 +553,10 @@ func c28Watched(w *c28Worker, do func(ctx context.Context) c28Outcome) (c28Outco
 		select {
 		case out := <-ch:
 			return out, c28CPUSeconds(pid) - cpu0
-		case <-tick.C:
-			if d := c28CPUSeconds(pid) - cpu0; d >= c28SpinCPUSeconds {
+		case now := <-tick.C:
+			cpu := c28CPUSeconds(pid)
+			samples = append(samples, sample{now, cpu})
+			if d := cpu - cpu0; d >= c28SpinCPUSeconds {
 				// answered in the meantime?
 				select {
 				case out := <-ch:
@@ -548,8 +565,68 @@ func c28Watched(w *c28Worker, do func(ctx context.Context) c28Outcome) (c28Outco
 				}
 				return c28Outcome{Kind: "spin", Status: fmt.Sprintf("%.1f CPU-seconds burnt, no answer", d)}, d
 			}
+			if now.Before(nextBlockedCheck) {
+				continue
+			}
+			// CPU used during the last c28BlockedAfter
+			var ref sample
+			for _, sm := range samples {
+				if now.Sub(sm.at) >= c28BlockedAfter {
+					ref = sm
+				}
+			}
+			if ref.at.IsZero() || cpu-ref.cpu >= c28BlockedMaxCPU {
+				continue
+			}
+			nextBlockedCheck = now.Add(c28BlockedAfter)
+			if frame, blk, ok := c28ConfirmBlocked(w, aliveAddr, pid); ok {
+				select {
+				case out := <-ch: // answered after all
+					return out, cpu - cpu0
+				default:
+				}
+				return c28Outcome{Kind: "blocked", Status: frame, Detail: blk}, cpu - cpu0
+			}
 		}
 	}
+}
+
+// c28ConfirmBlocked: the process is idle; is it idle because a handler is parked
+// for good? Nothing here depends on how fast the machine is: a parked goroutine
+// stays parked, an upstream call in flight or a busy/unscheduled process
+// disqualify the verdict.
+func c28ConfirmBlocked(w *c28Worker, aliveAddr string, pid int) (frame, blk string, ok bool) {
+	d1, death := w.call(c28Cmd{Op: "stacks"}, 30*time.Second)
+	if death != nil || d1 == nil || d1.UpstreamInFlight != 0 {
+		return "", "", false
+	}
+	id1, st1, f1, b1 := c28BlockedHandler(d1.Stacks)
+	if id1 == "" {
+		return "", "", false
+	}
+	// the process is alive and answers at once
+	actx, acancel := context.WithTimeout(context.Background(), 2*time.Second)
+	alive := c28DoHTTP(actx, aliveAddr, c28Req{Method: "GET", Endpoint: "/alive"}, nil, "", "")
+	acancel()
+	if alive.Kind != "answered" || alive.Status != "200" {
+		return "", "", false
+	}
+	cpuA := c28CPUSeconds(pid)
+	time.Sleep(time.Second)
+	d2, death := w.call(c28Cmd{Op: "stacks"}, 30*time.Second)
+	if death != nil || d2 == nil || d2.UpstreamInFlight != 0 {
+		return "", "", false
+	}
+	// same goroutine, same wait state, same place, and still no CPU
+	for _, b := range strings.Split(d2.Stacks, "\n\n") {
+		if strings.HasPrefix(b, "goroutine "+id1+" [") {
+			id2, st2, f2, _ := c28BlockedHandler(b)
+			if id2 == id1 && st2 == st1 && f2 == f1 && c28CPUSeconds(pid)-cpuA < c28BlockedMaxCPU+0.05 {
+				return f1, b1, true
+			}
+		}
+	}
+	return "", "", false
 }
 
 func c28RunRequest(c c28Case, fresh bool) vkit.Result {
@@ -599,15 +676,23 @@ func c28RunRequest(c c28Case, fresh bool) vkit.Result {
 					return res
 				}
 			}
-			out, _ = c28Watched(w, func(ctx context.Context) c28Outcome { return c28DoGRPC(ctx, conn, r, body) })
+			out, _ = c28Watched(w, httpAddr, func(ctx context.Context) c28Outcome { return c28DoGRPC(ctx, conn, r, body) })
 		case "peer":
-			out, _ = c28Watched(w, func(ctx context.Context) c28Outcome { return c28DoHTTP(ctx, peerAddr, r, body, ct, ce) })
+			out, _ = c28Watched(w, httpAddr, func(ctx context.Context) c28Outcome { return c28DoHTTP(ctx, peerAddr, r, body, ct, ce) })
 		default:
-			out, _ = c28Watched(w, func(ctx context.Context) c28Outcome { return c28DoHTTP(ctx, httpAddr, r, body, ct, ce) })
+			out, _ = c28Watched(w, httpAddr, func(ctx context.Context) c28Outcome { return c28DoHTTP(ctx, httpAddr, r, body, ct, ce) })
 		}
 		res.Class("outcome=" + out.Kind + "/" + out.Status[:min(len(out.Status), 24)])
 		desc := fmt.Sprintf("request %d: %s %s base=%s pre=%v enc=%q post=%v content-type=%q content-encoding=%q key=%s dataset=%.40q event-time=%.40q samplerate=%q; %d bytes on the wire: %s; outcome %s %.200s",
 			i, r.Method, c28EndpointLabel(r), r.Base, r.Pre, r.Enc, r.Post, ct, ce, r.Key, r.Dataset, r.Time, r.Rate, len(body), c28Hex(body, 96), out.Kind, out.Status)
+		if out.Kind == "blocked" {
+			res.NonTrivial = true
+			c28KillWorker()
+			res.Violate("C28/request/"+ep+"/blocked-without-progress@"+out.Status,
+				"no answer after %v while the refinery process was idle (< %.0f ms CPU in that window), the upstream had nothing outstanding, /alive answered, and two goroutine dumps one second apart show the handler parked at the same place; %s\n--- blocked handler goroutine ---\n%s",
+				c28BlockedAfter, c28BlockedMaxCPU*1000, desc, out.Detail[:min(len(out.Detail), 2200)])
+			return res
+		}
 		if out.Kind == "spin" {
 			res.NonTrivial = true
 			frame, blk := "unknown-frame", ""
@@ -681,11 +766,12 @@ func TestC28(t *testing.T) {
 	vkit.Run(t, vkit.Spec[c28Case]{
 		ID: "C28",
 		Rule: "Two modes in one check. config: files generated from refinery's own metadata (configMeta.yaml/rulesMeta.yaml: valid, near-valid and junk values, YAML mostly, some JSON/TOML); whatever config.NewConfig accepts is exercised as refinery does (all argument-free Config getters by reflection, per-destination lookups, Reload, the marshalling of /query/*rules, every sampler built by sample.SamplerFactory and run on 3 small traces). " +
-			"request: 1-5 mutated requests (truncate, flip, set, insert/overwrite hostile length headers, dup, cut, splice with another format, repeat, JSON type swaps; real gzip/zstd then mutations of the compressed stream; wrong content types/encodings; hostile event-time/samplerate/dataset) on every HTTP route of the incoming and the peer listener and on the gRPC trace, logs, health and unknown methods of a live Router. " +
+			"request: 1-5 mutated requests (truncate, flip, set, insert/overwrite hostile length headers, dup, cut, splice with another format, repeat, JSON type swaps; real gzip/zstd then mutations of the compressed stream; wrong content types/encodings; hostile event-time/samplerate/dataset) on every HTTP route of the incoming and the peer listener and on the gRPC trace, logs, health and unknown methods of a live Router; a quarter of the request cases are HISTORIES in which the environment lookup at the fake Honeycomb's /1/auth fails for one request (401, 500, undecodable body, hang-up) and requests with environment-style keys (same, other, cached, uncached, slow lookup) follow on the same router. " +
 			"The refinery side runs in a child process (crashes, os.Exit and CPU spins are observed from outside); a violation is reported only when a brand-new child reproduces it. Hand-kept regression cases of fixed defects carry a tag that is appended to their signatures so a known finding can never mask them. Non-trivial: config mode = validation accepted a file into which the generator had put at least one near-valid/junk value; request mode = at least one request was really mutated (or the process died). Distinct = distinct case JSON.",
 		Assumptions: []string{
 			"a panic or exit during validation/loading itself is outside the statement ('configuration that passes validation'): counted in coverage key validator_panics, not reported as a violation",
 			"a missing reply within the wall deadline (30 s per request, 90 s per config) is inconclusive; a hang is reported only when the server process burnt >= 6 CPU-seconds on one request (<= 6 MB) without answering: CPU time does not depend on how busy the machine is",
+			"a handler is reported BLOCKED (not late) only when, >= 3 s after the request, the process used < 150 ms CPU in the last 3 s (its idle baseline is 30-60 ms), the fake upstream serves nothing (refinery is not waiting on the network), /alive is answered within 2 s (the process is scheduled and idle), and two goroutine dumps 1 s apart show the same handler goroutine parked on a lock/channel at the same frame",
 			"the child runs with RLIMIT_AS = 5 GiB; an out-of-memory death is blamed on refinery only when the single allocation it asked for exceeds this machine's RAM+swap (it would fail without the cap too)",
 			"the collector is a pass-through double and samplers are driven directly (as collectorWorker.send drives them); collector start-up under fuzzed Collection/Traces values is not exercised",
 			"malformed HTTP framing (bad chunking, wrong Content-Length, invalid %-escapes in the path) is answered by net/http before refinery sees it and is not generated",
